@@ -41,6 +41,7 @@ type jn struct {
 	arr  []*jn
 	keys []string
 	vals []*jn
+	sem  interface{} // the value meant (leaves of generated documents): *big.Int, bool, []byte, string; read by the reference transcription in round3.go
 }
 
 func jnull() *jn            { return &jn{kind: 'n'} }
@@ -230,6 +231,10 @@ func genAtomic(r *cv.Rand, st *cv.Stats) *mty {
 	return t
 }
 
+// fixed array dimensions drawn by genMemberType (the Go-only bulk sections of round3.go widen it to
+// dimensions of two and three digits)
+var dimPool = []int{0, 1, 2, 3}
+
 func genMemberType(r *cv.Rand, st *cv.Stats, names []string, self string) *mty {
 	var t *mty
 	switch c := r.Intn(10); {
@@ -252,7 +257,7 @@ func genMemberType(r *cv.Rand, st *cv.Stats, names []string, self string) *mty {
 	for i := 0; i < d; i++ {
 		f := -1
 		if r.Intn(2) == 0 {
-			f = []int{0, 1, 2, 3}[r.Intn(4)]
+			f = dimPool[r.Intn(len(dimPool))]
 		}
 		t = &mty{kind: "arr", elem: t, fixed: f}
 	}
@@ -389,6 +394,12 @@ func randBig(r *cv.Rand, bits int) *big.Int {
 }
 
 func spellInt(r *cv.Rand, st *cv.Stats, z *big.Int) *jn {
+	j := spellInt0(r, st, z)
+	j.sem = new(big.Int).Set(z)
+	return j
+}
+
+func spellInt0(r *cv.Rand, st *cv.Stats, z *big.Int) *jn {
 	switch r.Intn(4) {
 	case 0:
 		st.Hit("intspelling:number")
@@ -494,30 +505,33 @@ func genValue(r *cv.Rand, st *cv.Stats, g *graph, t *mty, budget int) *jn {
 	case "bool":
 		switch r.Intn(6) {
 		case 0:
-			return jbool(true)
+			return withSem(jbool(true), true)
 		case 1:
-			return jbool(false)
+			return withSem(jbool(false), false)
 		case 2:
-			return jstr("true")
+			return withSem(jstr("true"), true)
 		case 3:
-			return jstr("TrUe")
+			return withSem(jstr("TrUe"), true)
 		case 4:
-			return jstr("false")
+			return withSem(jstr("false"), false)
 		default:
-			return jstr("no")
+			return withSem(jstr("no"), false)
 		}
 	case "address":
 		b := r.Bytes(20)
 		if r.Intn(6) == 0 {
 			b = make([]byte, 20)
 		}
-		return jstr(hexSpell(r, b))
+		return withSem(jstr(hexSpell(r, b)), b)
 	case "bytesN":
-		return jstr(hexSpell(r, r.Bytes(t.bits)))
+		b := r.Bytes(t.bits)
+		return withSem(jstr(hexSpell(r, b)), b)
 	case "bytes":
-		return jstr(hexSpell(r, r.Bytes(byteLens[r.Intn(len(byteLens))])))
+		b := r.Bytes(byteLens[r.Intn(len(byteLens))])
+		return withSem(jstr(hexSpell(r, b)), b)
 	case "string":
-		return jstr(genString(r))
+		s := genString(r)
+		return withSem(jstr(s), s)
 	case "ref":
 		if budget <= 0 || r.Intn(5) == 0 {
 			st.Hit("struct:absent")
@@ -543,6 +557,8 @@ func genValue(r *cv.Rand, st *cv.Stats, g *graph, t *mty, budget int) *jn {
 	}
 	return jnull()
 }
+
+func withSem(j *jn, sem interface{}) *jn { j.sem = sem; return j }
 
 func genStruct(r *cv.Rand, st *cv.Stats, g *graph, name string, budget int) *jn {
 	s := g.find(name)
@@ -752,6 +768,8 @@ type ctxT struct {
 	st   *cv.Stats
 	r    *cv.Rand
 	seen map[string]bool
+	// goOnly: abiCase evaluates its Go-side oracles only (no Coq case written); used by the bulk section
+	goOnly bool
 }
 
 func (c *ctxT) fail(what string, extra map[string]interface{}) {
@@ -822,12 +840,16 @@ type genDoc struct {
 	g       *graph
 	primary string
 	doc     *jn
+	domain  *sdef // the declared EIP712Domain type; nil when the document declares none
 }
 
 // domainMode: 0..31 = that subset of the five standard fields; 32 = no domain type; 33 = domain-only
 // document (random subset); < 0 = random
 func buildDoc(r *cv.Rand, st *cv.Stats, nStructs int, domainMode int) *genDoc {
-	g := genGraph(r, st, nStructs)
+	return buildDocG(r, st, genGraph(r, st, nStructs), domainMode)
+}
+
+func buildDocG(r *cv.Rand, st *cv.Stats, g *graph, domainMode int) *genDoc {
 	primary := g.structs[0].name
 	doc := jobj()
 	types := g.typesJSON()
@@ -836,6 +858,7 @@ func buildDoc(r *cv.Rand, st *cv.Stats, nStructs int, domainMode int) *genDoc {
 		domainMode = r.Intn(36)
 	}
 	var domain *jn
+	var domainDef *sdef
 	switch {
 	case domainMode == 32:
 		st.Hit("domain:no-type")
@@ -851,6 +874,7 @@ func buildDoc(r *cv.Rand, st *cv.Stats, nStructs int, domainMode int) *genDoc {
 		l := jarr()
 		domain = jobj()
 		ds := &sdef{name: "EIP712Domain"}
+		domainDef = ds
 		for i, f := range domainFields {
 			if mask&(1<<i) != 0 {
 				l.arr = append(l.arr, jobj().set("name", jstr(f.name)).set("type", jstr(f.t.name())))
@@ -893,7 +917,7 @@ func buildDoc(r *cv.Rand, st *cv.Stats, nStructs int, domainMode int) *genDoc {
 	} else if r.Bool() {
 		doc.set("message", jobj())
 	}
-	return &genDoc{g: g, primary: primary, doc: doc}
+	return &genDoc{g: g, primary: primary, doc: doc, domain: domainDef}
 }
 
 // add types that nothing reachable refers to
@@ -1396,8 +1420,10 @@ func (c *ctxT) abiCase(paramJSON []byte, g *graph, root string) {
 	if cls == 0 {
 		tsTerm = coqTypeSet(c.r, ts)
 	}
-	c.w.Add(fmt.Sprintf("CAbi %s [%s] %d %s %s", atc, strings.Join(reParts, "; "), cls, coqStr(primary), tsTerm),
-		desc{Kind: "abi", Doc: string(paramJSON), Impl: fmt.Sprintf("class=%d primary=%s", cls, primary)})
+	if !c.goOnly {
+		c.w.Add(fmt.Sprintf("CAbi %s [%s] %d %s %s", atc, strings.Join(reParts, "; "), cls, coqStr(primary), tsTerm),
+			desc{Kind: "abi", Doc: string(paramJSON), Impl: fmt.Sprintf("class=%d primary=%s", cls, primary)})
+	}
 	if cls == 2 {
 		c.fail("ABItoTypedDataV4 panicked", map[string]interface{}{"abi": string(paramJSON)})
 	}
@@ -1572,6 +1598,22 @@ func main() {
 	} {
 		c.abiCase([]byte(bad), nil, "")
 	}
+
+	// ---- round 3 (kept after everything else so that the earlier case stream is unchanged) ----
+	c.addNilDoc()
+	for _, d := range round3FixedDocs() {
+		c.addDoc("fixed", []byte(d), "", "")
+	}
+	for _, bad := range round3BadABI {
+		c.abiCase([]byte(bad), nil, "")
+	}
+	c.round3Sign()
+	c.round3ABI(thorough)
+	nBulk := 1200
+	if thorough {
+		nBulk = 20000
+	}
+	c.bulk(nBulk)
 
 	if err := c.w.Flush(); err != nil {
 		panic(err)
